@@ -83,7 +83,7 @@ def run_record(js, strategy, options=None, inject_at=None, tmpdir=None, reports=
 
     def on_alarm(*a):
         raise Timeout()
-    old_alarm = signal.signal(signal.SIGALRM, on_alarm)
+    old_alarm = signal.signal(signal.SIGVTALRM, on_alarm)
     with warnings.catch_warnings():
         warnings.simplefilter("ignore")
         with contextlib.redirect_stdout(buf):
@@ -95,26 +95,26 @@ def run_record(js, strategy, options=None, inject_at=None, tmpdir=None, reports=
                 hook = StepHook(rec, inject_at)
                 hook.install(cls)
                 try:
-                    signal.alarm(time_limit)
+                    signal.setitimer(signal.ITIMER_VIRTUAL, time_limit)   # CPU time of this process: independent of machine load
                     s.run(strategy, opts)
                 except Timeout:
                     raised = "Timeout(%ds)" % time_limit
                 except Exception as e:  # noqa
                     raised = repr(e)[:300]
                 finally:
-                    signal.alarm(0)
-                    signal.signal(signal.SIGALRM, old_alarm)
+                    signal.setitimer(signal.ITIMER_VIRTUAL, 0)
+                    signal.signal(signal.SIGVTALRM, old_alarm)
                     hook.remove()
     if raised is not None and raised.startswith("Timeout"):
         # exact rationals can make a look-ahead strategy arbitrarily slow (digit growth): only a run that also
         # exceeds the limit in plain float arithmetic (no recorder, no exact numbers) counts as not terminating
-        old_alarm = signal.signal(signal.SIGALRM, on_alarm)
+        old_alarm = signal.signal(signal.SIGVTALRM, on_alarm)
         try:
             with warnings.catch_warnings():
                 warnings.simplefilter("ignore")
                 with contextlib.redirect_stdout(io.StringIO()):
                     s2 = sc.Scenario(copy.deepcopy(js2), tmpdir or "")
-                    signal.alarm(60)
+                    signal.setitimer(signal.ITIMER_VIRTUAL, 60)
                     s2.run(strategy, dict(opts))
             raised = "ExactTooSlow"
         except Timeout:
@@ -122,8 +122,8 @@ def run_record(js, strategy, options=None, inject_at=None, tmpdir=None, reports=
         except Exception:  # noqa
             raised = "ExactTooSlow"
         finally:
-            signal.alarm(0)
-            signal.signal(signal.SIGALRM, old_alarm)
+            signal.setitimer(signal.ITIMER_VIRTUAL, 0)
+            signal.signal(signal.SIGVTALRM, old_alarm)
     files = {}
     if rdir:
         names = sorted(os.listdir(rdir))
